@@ -726,6 +726,40 @@ func (e *Env) call(ce *CE) (CVal, error) {
 		if e.depth > 40 {
 			return CVal{}, fmt.Errorf("spec expansion too deep in %s", name)
 		}
+		if sp.Kind == "uninterp" {
+			var ts []*Term
+			for i, a := range args {
+				var t *Term
+				if sp.ParamTypes[i] == "string" || sp.ParamTypes[i] == "bytes" {
+					s, err := e.strArg(a)
+					if err != nil {
+						return CVal{}, err
+					}
+					t = s
+				} else {
+					v, err := e.eval(a)
+					if err != nil {
+						return CVal{}, err
+					}
+					if v.IsNil {
+						v.T = nilOfSort(sortOfDeclType(sp.ParamTypes[i]))
+					}
+					t = v.T
+				}
+				if t == nil || t.Sort != sortOfDeclType(sp.ParamTypes[i]) {
+					return CVal{}, fmt.Errorf("argument %d of %s has the wrong sort", i, name)
+				}
+				ts = append(ts, t)
+			}
+			var ty types.Type
+			switch sp.SpecSort {
+			case "string":
+				ty = types.Typ[types.String]
+			case "int":
+				ty = types.Typ[types.Int]
+			}
+			return CVal{T: App("uf_"+name, sortOfDeclType(sp.SpecSort), ts...), Ty: ty}, nil
+		}
 		sub := &Env{fg: fg, vars: map[string]CVal{}, st: e.st, old: e.old, reach: e.reach, depth: e.depth + 1}
 		for i, pn := range sp.ParamNames {
 			v, err := e.eval(args[i])
@@ -962,6 +996,12 @@ func (e *Env) resolveType(ce *CE) (types.Type, error) {
 		s = ce.String()
 	default:
 		return nil, fmt.Errorf("bad type expression %s", ce)
+	}
+	switch s {
+	case "[]byte":
+		return types.NewSlice(types.Typ[types.Uint8]), nil
+	case "error":
+		return types.Universe.Lookup("error").Type(), nil
 	}
 	ptr := false
 	if strings.HasPrefix(s, "*") {
